@@ -43,6 +43,9 @@ type c7Case struct {
 	Runs []c7Run `json:"runs"`
 	// Unhashable: every package directory holds a dangling symlink (the directory hash cannot be computed)
 	Unhashable bool `json:"unhashable,omitempty"`
+	// Nested: a second module lives in the directory znested/ of the main module, its path lies below the main module's path,
+	// and the first package imports its package: it is another module and must not be touched
+	Nested bool `json:"nested,omitempty"`
 }
 
 var c7GenNames = []string{"g", "gen", "deep", "deepcopy", "a", "ab", "x1", "doc"}
@@ -107,6 +110,26 @@ func genC07(t *rapid.T) c7Case {
 		c.Mod.Extra = append(c.Mod.Extra, modspec.File{Name: "docs/" + c.Base + ".g.go", Data: "package docs\n"})
 	}
 	c.Mod.Extra = append(c.Mod.Extra, modspec.File{Name: "zdocs/sub/notes.md", Data: "notes\n"})
+	if rapid.IntRange(0, 3).Draw(t, "nested") == 0 {
+		c.Nested = true
+		np := c.Mod.Path + "/znested"
+		gomod := "module " + c.Mod.Path + "\n"
+		if c.Mod.Go != "" {
+			gomod += "\ngo " + c.Mod.Go + "\n"
+		}
+		gomod += "\nrequire " + np + " v0.0.0\n\nreplace " + np + " => ./znested\n"
+		ngomod := "module " + np + "\n"
+		if c.Mod.Go != "" {
+			ngomod += "\ngo " + c.Mod.Go + "\n"
+		}
+		c.Mod.Extra = append(c.Mod.Extra,
+			modspec.File{Name: "go.mod", Data: gomod},
+			modspec.File{Name: "znested/go.mod", Data: ngomod},
+			modspec.File{Name: "znested/pkg/p.go", Data: "package pkg\n\ntype Nested struct{ A int }\n"},
+			modspec.File{Name: "znested/pkg/" + c.Base + ".old.go", Data: "package pkg\n\nvar _stale_in_nested = 0\n"})
+		first := &c.Mod.Pkgs[0]
+		first.Other = append(first.Other, modspec.File{Name: "znesteddep.go", Data: "package " + first.Name + "\n\nimport _ \"" + np + "/pkg\"\n"})
+	}
 	c.Unhashable = rapid.IntRange(0, 4).Draw(t, "unhashable") == 0
 	nruns := rapid.IntRange(1, 3).Draw(t, "nruns")
 	for ri := 0; ri < nruns; ri++ {
@@ -423,6 +446,15 @@ func c7Features(c c7Case) []string {
 			}
 			if g.Behaviour == "defer-only" {
 				fs["renders-only-from-defer"] = true
+			}
+			if c.Nested {
+				fs["nested-module-below-the-module-path"] = true
+			}
+			if c.Unhashable {
+				fs["unhashable-package-directories"] = true
+			}
+			if run.Cwd != "" {
+				fs["started-outside-the-module-root"] = true
 			}
 			if strings.Contains(g.Behaviour, "ignore") {
 				fs["errignore"] = true
